@@ -31,6 +31,9 @@ type Step struct {
 	Len    int    `json:"len,omitempty"`
 	Pieces []int  `json:"pieces,omitempty"` // write sizes for create / piece sizes for readers
 	Late   bool   `json:"late,omitempty"`   // issued through an ended / unknown transaction
+	// NoLevel: Begin is called without a level argument (the documented default, ReadCommitted,
+	// which is also what Level says)
+	NoLevel bool `json:"no_level,omitempty"`
 }
 
 func (s Step) String() string {
@@ -403,7 +406,13 @@ func (r *Runner) Do(idx int, s Step) *Mismatch {
 	}
 	switch s.Op {
 	case "begin":
-		tx, err := r.Env.DB.Begin(ctx, verif.IsoLevel(s.Level))
+		var tx fs_db.Tx
+		var err error
+		if s.NoLevel && s.Level == 1 {
+			tx, err = r.Env.DB.Begin(ctx)
+		} else {
+			tx, err = r.Env.DB.Begin(ctx, verif.IsoLevel(s.Level))
+		}
 		if err != nil {
 			return r.mism(idx, s, "", "begin-failed", "ok", fmt.Sprint(err))
 		}
